@@ -785,7 +785,7 @@ def x_to_angles(points, latitude=False):
     """
     npoints, ncol = points.shape
     phi = np.degrees(np.arctan2(points[:, 1], points[:, 0]))
-    r = (points**2).sum(1)
+    r = np.sqrt((points**2).sum(1))
     theta = np.degrees(np.arccos(points[:, 2]/r))
     if latitude:
         theta = 90.0 - theta
